@@ -86,9 +86,12 @@ func genOrCase(t *rapid.T) interface{} {
 			op.Kind = "block"
 		}
 		op.Val = rapid.IntRange(0, n-1).Draw(t, "val")
+		if op.Kind == "hsplit" {
+			op.Variant = rapid.SampledFrom([]int{0, 0, 6, 8}).Draw(t, "pair") // which two lists the camps report
+		}
 		if op.Kind == "price" || op.Kind == "holders" {
 			op.Epoch = rapid.SampledFrom([]int{0, 0, 0, 0, 0, 0, 0, -1, 1}).Draw(t, "epoch")
-			op.Variant = rapid.IntRange(0, 5).Draw(t, "variant")
+			op.Variant = rapid.IntRange(0, 9).Draw(t, "variant")
 			op.Missing = rapid.IntRange(0, 9).Draw(t, "missing") == 0
 			op.Extra = rapid.IntRange(0, 5).Draw(t, "extra") == 0
 		}
@@ -120,6 +123,26 @@ func orPrice(name string, ni, val, variant int) sdk.Dec {
 
 func orHolders(variant int) *otypes.Holders {
 	hs := &otypes.Holders{}
+	// variants 6/7 and 8/9: pairs of different lists whose entries, written one after the other, give the same text (holder
+	// addresses are free-form strings): a digit moved from the head of an address to the tail of the preceding value, and
+	// two entries spelled as one
+	five, seven := new(big.Int).Mul(big.NewInt(5), pow10(18)), new(big.Int).Mul(big.NewInt(7), pow10(18))
+	switch variant {
+	case 6:
+		hs.List = []*otypes.Holder{{Address: "1f5c2b7e63fd05aa1b3c4d5e6f708192a3baacc2", Value: sdk.NewIntFromBigInt(five)},
+			{Address: "9c8b2b7e63fd05aa1b3c4d5e6f708192a3baac0b", Value: sdk.NewIntFromBigInt(seven)}}
+		return hs
+	case 7:
+		hs.List = []*otypes.Holder{{Address: "1f5c2b7e63fd05aa1b3c4d5e6f708192a3baacc2", Value: sdk.NewIntFromBigInt(new(big.Int).Add(new(big.Int).Mul(five, big.NewInt(10)), big.NewInt(9)))},
+			{Address: "c8b2b7e63fd05aa1b3c4d5e6f708192a3baac0b", Value: sdk.NewIntFromBigInt(seven)}}
+		return hs
+	case 8:
+		hs.List = []*otypes.Holder{{Address: "ab", Value: sdk.NewInt(1)}, {Address: "cd", Value: sdk.NewInt(2)}}
+		return hs
+	case 9:
+		hs.List = []*otypes.Holder{{Address: "ab:1cd", Value: sdk.NewInt(2)}}
+		return hs
+	}
 	for u := 0; u < 3; u++ {
 		v := sdk.NewIntFromBigInt(new(big.Int).Mul(big.NewInt(int64((u+1)*(variant%3+1))), pow10(18)))
 		a := sim.ExtUser(u).Hex()[2:]
@@ -336,9 +359,9 @@ func runOrCaseMode(ci interface{}, rec *pbt.Rec, blockers bool) *pbt.Failure {
 		}
 		tot, acc := big.NewInt(h.Staking.TotalPower()), new(big.Int)
 		for i := 0; i < nvals; i++ {
-			variant := 1
+			variant := op.Variant + 1
 			if new(big.Int).Mul(acc, big.NewInt(3)).Cmp(new(big.Int).Mul(tot, big.NewInt(2))) < 0 {
-				variant = 0
+				variant = op.Variant
 			}
 			acc.Add(acc, big.NewInt(h.Staking.GetLastValidatorPower(h.Ctx(), sim.ValAddr(i))))
 			ops = append(ops, OrOp{Kind: "holders", Val: i, Variant: variant})
